@@ -33,9 +33,9 @@ func vGoID() int64 {
 }
 
 type vActor struct {
-	name   string // p<i>, g<j>, u
-	resume chan struct{}
-	events chan string // "gate:<point>" or "done"
+	name    string // p<i>, g<j>, u
+	resume  chan struct{}
+	events  chan string // "gate:<point>" or "done"
 	blocked bool
 	done    bool
 	result  string
